@@ -61,10 +61,22 @@ func main() {
 			fmt.Printf("| %s | %d | %s | %s |\n", id, r.Min, r.Doc, strings.Join(ms, ", "))
 		}
 		fmt.Println()
+		fmt.Println("### Property table")
+		fmt.Println()
+		fmt.Println("A rule followed by `[...]` contributes only the obligations whose key names one of the listed constructs.")
+		fmt.Println()
 		fmt.Println("| property | rules |")
 		fmt.Println("|---|---|")
 		for _, id := range rules.Properties() {
-			fmt.Printf("| %s | %s |\n", id, strings.Join(rules.PropertyOf(id).Rules, ", "))
+			pr := rules.PropertyOf(id)
+			var rs []string
+			for _, r := range pr.Rules {
+				if sc, ok := pr.Scope[r]; ok {
+					r += " [" + strings.Join(sc, ", ") + "]"
+				}
+				rs = append(rs, r)
+			}
+			fmt.Printf("| %s | %s |\n", id, strings.Join(rs, ", "))
 		}
 		return
 	}
@@ -124,9 +136,17 @@ func main() {
 			continue
 		}
 		obs := r.Run(prog)
+		found := len(obs)
+		var scoped []core.Obligation
+		for _, o := range obs {
+			if pr.InScope(id, o) {
+				scoped = append(scoped, o)
+			}
+		}
+		obs = scoped
 		perRule[id] = len(obs)
-		if len(obs) < r.Min {
-			broken = append(broken, fmt.Sprintf("rule %s found %d instances, fewer than the %d confirmed by hand: an anchor was renamed or removed and the rule must be re-validated", id, len(obs), r.Min))
+		if found < r.Min {
+			broken = append(broken, fmt.Sprintf("rule %s found %d instances, fewer than the %d confirmed by hand: an anchor was renamed or removed and the rule must be re-validated", id, found, r.Min))
 		}
 		all = append(all, obs...)
 		ruleDocs = append(ruleDocs, id+": "+r.Doc)
@@ -445,7 +465,7 @@ func runCorpus(repo, verif string, pr *rules.Property, limit int, seed int, base
 					continue
 				}
 				for _, o := range r.Run(mp) {
-					if o.Status != core.Held && !baseline[o.Key] {
+					if o.Status != core.Held && !baseline[o.Key] && pr.InScope(id, o) {
 						violated = append(violated, o.Key)
 					}
 				}
